@@ -95,14 +95,20 @@ MUTANTS = [
     ("C12-wait-single-pass", "C12", "deferred.py", "            if not progress or all(key.is_awaiting for key in self.coeffs):", "            if True:", 1),
     ("C14-include-locale-encoding", "C14", "metacommands.py", 'with open(include_path, "r", encoding="utf-8") as f:', 'with open(include_path, "r") as f:', 1),
     ("C18-include-locale-encoding", "C18", "metacommands.py", 'with open(include_path, "r", encoding="utf-8") as f:', 'with open(include_path, "r") as f:', 1),
-    ("C07-unused-symbols-not-resolved", "C07", "compiler.py", "        for _, (_, value) in self.symbols.items():\n            wait(value)\n", "", 1),
+    ("C07-unused-symbols-not-resolved", "C07", "compiler.py", "            try:\n                wait(value)\n            except DeferredCycle:", "            try:\n                pass\n            except DeferredCycle:", 1),
     ("C19-bare-word-announces-1", "C19", "metacommands.py", "@metacommand(size=lambda state, *operands: 2 * (len(operands) or 1), alias=\".dw\")", "@metacommand(size=lambda state, *operands: 2 * len(operands) or 1, alias=\".dw\")", 1),
     ("C04-nested-constant-unscaled", "C04", "deferred.py", "                    new_constant_term += resolved.constant_term * value", "                    new_constant_term += resolved.constant_term", 1),
     ("C06-repeat-addr", "C06", "metacommands.py", "        if isinstance(chunk, BaseDeferred):\n            addr += chunk.length()\n        else:\n            addr += len(chunk)\n        result += chunk", "        result += chunk", 1),
     ("C14-tape-name-stripped", "C14", "metacommands.py", "def encode_bk_filename(state, bk_filename):\n    try:", "def encode_bk_filename(state, bk_filename):\n    bk_filename = bk_filename.strip()\n    try:", 1),
     ("C10-implicit-word-own-address", "C10", "compiler.py", 'words = [get_as_int(state, "implicit word", insn, word, bitness=16, unsigned=False) for word in insn_words]', 'words = [get_as_int({**state, "emit_address": state["emit_address"] + 2 * i}, "implicit word", insn, word, bitness=16, unsigned=False) for i, word in enumerate(insn_words)]', 1),
+    ("C08-cycle-not-reported-by-get_as_int", "C08", "metacommand_impl.py", "        if not cycle_is_reported:\n            raise\n        report_cycle(what, arg_token)", "        raise", 1),
+    ("C08-alias-cycle-unchecked", "C08", "deferred.py", "            if alias is self:\n                raise DeferredCycle(self)", "            if False:\n                raise DeferredCycle(self)", 1),
+    ("C08-open_device-lets-ValueError-out", "C08", "devices.py", "        except ValueError as ex:\n", "        except KeyError as ex:\n", 1),
+    ("C16-extern-all-not-carried", "C16", "compiler.py", 'state = {**state, "insn": insn, "emit_address": addr, "local_symbol_prefix": local_symbol_prefix}', 'state = {**state, "insn": insn, "emit_address": addr, "local_symbol_prefix": local_symbol_prefix, "extern_all": None}', 1),
+    ("C13-include-parsed-under-written-path", "C13", "metacommands.py", "file_ast = parser.parse(include_path, code)", "file_ast = parser.parse(included_file_path, code)", 1),
+    ("C12-symbols-before-base", "C12", "compiler.py", "        if not link_base[\"promise\"].settled:\n            link_base[\"promise\"].settle(0o1000)\n", "        if not link_base[\"promise\"].settled:\n            link_base[\"promise\"].settle(0o1000)\n        for _, (symbol, value) in self.symbols.items():\n            wait(value)\n", 1),
     # negative controls: semantically neutral edits, every check must stay green
-    ("NEG-rename-local", "C06", "metacommand_impl.py", "    value = wait(arg_token.resolve(state))\n\n    if not isinstance(value, int):", "    value = wait(arg_token.resolve(state))\n    _unused = 1\n\n    if not isinstance(value, int):", 0),
+    ("NEG-rename-local", "C06", "metacommand_impl.py", "        report_cycle(what, arg_token)\n\n    if not isinstance(value, int):", "        report_cycle(what, arg_token)\n    _unused = 1\n\n    if not isinstance(value, int):", 0),
     ("NEG-candidate-order", "C03", "types.py", "            state[\"local_symbol_prefix\"] + self.name,\n            state[\"internal_symbol_prefix\"] + self.name\n", "            state[\"internal_symbol_prefix\"] + self.name,\n            state[\"local_symbol_prefix\"] + self.name\n", 0),
     ("NEG-comment-lines", "C01", "insns.py", "def try_as_register(operand, state):", "# a comment\n\ndef try_as_register(operand, state):", 0),
 ]
